@@ -5,6 +5,9 @@
 
 package paymentsdb
 
+//@ load-pkg github.com/lightningnetwork/lnd/sqldb
+//@ inline-func github.com/lightningnetwork/lnd/sqldb.SQLInt32 github.com/lightningnetwork/lnd/sqldb.SQLInt64 github.com/lightningnetwork/lnd/sqldb.SQLInt16
+
 //@ func (ps PaymentStatus) initializable
 //@   props C16
 //@   ensures result == nil <==> ps == StatusFailed
@@ -96,7 +99,15 @@ package paymentsdb
 //@ func (p *KVStore) updateHtlcKey$1
 //@   props C16
 //@   loop * havoc
-//@   site call Put: assert ret(updatable) == nil && ret(Get, 0) != nil && ret(Get, 1) == nil && ret(Get, 2) == nil
+//@   site call Put: assert ret(updatable) == nil && ret(Get, 0) != nil && ret(Get, 1) == nil && ret(Get, 2) == nil &&
+//@        arg(key) == ret(htlcBucketKey, 3) && arg(value) == value
+//@   site call htlcBucketKey nth 0: assert arg(prefix) == htlcAttemptInfoKey && arg(id) == aid
+//@   site call htlcBucketKey nth 1: assert arg(prefix) == htlcFailInfoKey && arg(id) == aid
+//@   site call htlcBucketKey nth 2: assert arg(prefix) == htlcSettleInfoKey && arg(id) == aid
+//@   site call htlcBucketKey nth 3: assert arg(prefix) == key && arg(id) == aid
+//@   site call Get nth 0: assert arg(key) == ret(htlcBucketKey, 0)
+//@   site call Get nth 1: assert arg(key) == ret(htlcBucketKey, 1)
+//@   site call Get nth 2: assert arg(key) == ret(htlcBucketKey, 2)
 //@   site call updatable: assert arg(ps) == retn(fetchPayment, 0).Status && retn(fetchPayment, 1) == nil
 //@
 //@ func (s *SQLStore) RegisterAttempt$1
@@ -129,3 +140,13 @@ package paymentsdb
 //@   props C16
 //@   loop * havoc
 //@   site call decidePaymentStatus: assert arg(htlcs) == htlcs && (failReason.Valid <==> arg(reason) != nil)
+//@
+//@ func (s *SQLStore) Fail$1
+//@   props C16
+//@   loop * havoc
+//@   site call FailPayment: assert arg(arg).FailReason.Valid && arg(arg).FailReason.Int32 == reason
+//@
+//@ func (p *KVStore) Fail$1
+//@   props C16
+//@   loop * havoc
+//@   site call Put: assert arg(key) == paymentFailInfoKey && len(arg(value)) == 1 && arg(value)[0] == reason
